@@ -29,15 +29,20 @@ def varint (bs : Bytes) : Res (Nat × Bytes) :=
   | .eof => .err "varint: eof"
   | .panic => .panic "size too large"
 
+structure RecFull where
+  version : Nat
+  ntx : Nat
+  r : Wk.Rec
+
 /-- `BlockIndexRecord::from` (record layout of Bitcoin Core: nFile iff HAVE_DATA|HAVE_UNDO, nDataPos iff HAVE_DATA,
     nUndoPos iff HAVE_UNDO, then the 80-byte header whose bytes 4..36 are the prev-hash) -/
-def decodeRec (key value : Bytes) : Res Wk.Rec :=
+def decodeRecFull (key value : Bytes) : Res RecFull :=
   if key.length ≠ 33 then .panic "leveldb: malformed blockhash" else
   match varint value with
-  | .ok (_ver, r1) => match varint r1 with
+  | .ok (ver, r1) => match varint r1 with
     | .ok (height, r2) => match varint r2 with
       | .ok (status, r3) => match varint r3 with
-        | .ok (_ntx, r4) =>
+        | .ok (ntx, r4) =>
           let fileR : Res (Nat × Bytes) := if status &&& 24 > 0 then varint r4 else .ok (0, r4)
           match fileR with
           | .ok (file, r5) =>
@@ -48,7 +53,7 @@ def decodeRec (key value : Bytes) : Res Wk.Rec :=
               match undoR with
               | .ok (_, r7) =>
                 if r7.length < 80 then .err "record: header truncated"
-                else .ok ⟨key.drop 1, (r7.drop 4).take 32, height, status, file, off⟩
+                else .ok ⟨ver, ntx, ⟨key.drop 1, (r7.drop 4).take 32, height, status, file, off⟩⟩
               | .err m => .err m | .panic m => .panic m
             | .err m => .err m | .panic m => .panic m
           | .err m => .err m | .panic m => .panic m
@@ -56,6 +61,12 @@ def decodeRec (key value : Bytes) : Res Wk.Rec :=
       | .err m => .err m | .panic m => .panic m
     | .err m => .err m | .panic m => .panic m
   | .err m => .err m | .panic m => .panic m
+
+def decodeRec (key value : Bytes) : Res Wk.Rec :=
+  match decodeRecFull key value with
+  | .ok f => .ok f.r
+  | .err m => .err m
+  | .panic m => .panic m
 
 def lexLt : Bytes → Bytes → Bool
   | [], [] => false
@@ -198,7 +209,7 @@ def txids (b : RBlock) : List Bytes := b.txs.map CB.txid
 
 /-- `ChainStorage::verify` -/
 def verifyBlock (coin : Coin) (idx : List (Nat × Wk.Rec)) (b : RBlock) (h : Nat) : Res Unit :=
-  match M.root A.sha256d (txids b) with
+  match M.rootRust A.sha256d (txids b) with
   | none => .panic "unable to calculate merkle root on empty hashes"
   | some r =>
     if r ≠ b.header.merkle then .err "Invalid merkle_root!"
